@@ -13,6 +13,10 @@ Exploration (bounded, exhaustive, nothing sampled):
   divide, on the same register files, all operand pairs (aliased ones included), scalars of S,
   array-like right operands, integer and fractional powers.
 * kind ``bcast``: power-space broadcasting ``p o b`` / ``b o p`` / ``p o= b``.
+* mode ``Z`` of kind ``arith``: every form of element-wise division with exact zeros (both
+  signs) among the divisor entries, reference = NumPy's IEEE quotient on copies (+-inf, nan).
+* kind ``overlap``: x1 and x2 are DISTINCT elements wrapping overlapping shifted views
+  (buf[1:], buf[:-1]) of one buffer and are only read; out is a separate register / new element.
 * kind ``range``: lincomb over all 27 triples with scalars and entries that are powers of two
   near the ends of the exponent range; judged only where a*x1, b*x2 and their sum are finite.
 * kind ``hist`` (history space): breadth-first search over sequences of in-place operations
@@ -1591,6 +1595,13 @@ def meta(tier):
                                      '>= 10000 entries: uniform + one single deviation'
                                      % (2 if th else 1),
             'V': R.V_FLOAT, 'V_int': R.V_INT, 'V_uint': R.V_UINT, 'D(divisors)': R.D_FLOAT,
+            'Z(divisors with zeros)': [str(v) for v in R.Z_FLOAT],
+            'overlapping_operands': 'r0 = buf[1:], r1 = buf[:-1] of one buffer per leaf (C buffer '
+                                    'shifted along the first axis / F buffer along the last), '
+                                    'de Bruijn tiling: all 25 ordered value pairs (x1[t], x2[t]); '
+                                    'lincomb (a,b) in S^2 with out = separate register or new, '
+                                    'x+y, x-y, x*y, x/y, multiply/divide(out=); sizes 3, 99, 100, '
+                                    '101, 50000, (10,10), (250,200), (2,5,10), discr, pspace',
             'S_real': [str(s) for s in scalars('f', tier)],
             'S_complex': [str(s) for s in scalars('c', tier)],
             'S_int': scalars('i', tier), 'S_uint': scalars('u', tier),
@@ -1608,11 +1619,15 @@ def meta(tier):
                 '; depth 3 on rn(100)[C,S0,C] and cn(101)' if th else ''),
         },
         'assumptions': [
-            'aliasing = identity of element objects (property anchor); distinct elements over '
-            'overlapping memory, a product element used as OUTPUT whose parts are one object, '
-            'and an in-place broadcast operand that is a part of the target are not enumerated',
+            'aliasing = identity of element objects (property anchor); an OUTPUT that overlaps '
+            'an operand without being identical to it, a product element used as OUTPUT whose '
+            'parts are one object, and an in-place broadcast operand that is a part of the '
+            'target are not enumerated; distinct operands that only are READ may overlap '
+            '(kind overlap)',
             'no NaN/Inf in operands; NaN/huge only in an out register that is not an operand, '
-            'and in the target of set_zero()',
+            'and in the target of set_zero(); divisors contain exact zeros only in mode Z, where '
+            'the expected quotient is NumPy\'s IEEE result (+-inf, nan) on copies, compared with '
+            'nan == nan and the sign of inf exactly',
             'integer spaces: only + - * and non-negative integer powers with integer scalars '
             'are judged; "/" on integer spaces counted as unspecified; unsigned: no subtraction',
             'non-dyadic scalars (3.0, 1+0.5j; thorough) and fractional powers are judged with '
